@@ -414,6 +414,34 @@ pub fn exec(input: &Value) -> Value {
         });
     }
 
+    // ---- readers with a field / array COUNT MISMATCH: every family must refuse (C13 ctor_checks through each adapter)
+    let mut de_mis = serde_json::Map::new();
+    let cls = |v: Value| -> Value {
+        if v.get("ok").is_some() { json!("ok") } else if v.get("err").is_some() { json!("err") } else { json!("panic") }
+    };
+    if fs.m.len() >= 1 {
+        let n = fs.m.len();
+        if let Some(arrays) = &arr_m {
+            let views: Vec<View> = arrays.iter().map(|a| a.as_view()).collect();
+            de_mis.insert("marrow/fewer_fields".into(), cls(de_out(|| serde_arrow::from_marrow::<Dump>(&fs.m[..n - 1], &views))));
+            de_mis.insert("marrow/fewer_arrays".into(), cls(de_out(|| serde_arrow::from_marrow::<Dump>(&fs.m, &views[..n - 1]))));
+            de_mis.insert("d_marrow/fewer_fields".into(), cls(de_out(|| Dump::deserialize(serde_arrow::Deserializer::from_marrow(&fs.m[..n - 1], &views)?))));
+            de_mis.insert("d_marrow/fewer_arrays".into(), cls(de_out(|| Dump::deserialize(serde_arrow::Deserializer::from_marrow(&fs.m, &views[..n - 1])?))));
+        }
+        if let (Some(arrays), Ok(afs)) = (&arr_a, &fs.a) {
+            de_mis.insert("arrow/fewer_fields".into(), cls(de_out(|| serde_arrow::from_arrow::<Dump, _>(&afs[..n - 1], arrays))));
+            de_mis.insert("arrow/fewer_arrays".into(), cls(de_out(|| serde_arrow::from_arrow::<Dump, _>(afs, &arrays[..n - 1]))));
+            de_mis.insert("d_arrow/fewer_fields".into(), cls(de_out(|| Dump::deserialize(serde_arrow::Deserializer::from_arrow(&afs[..n - 1], arrays)?))));
+            de_mis.insert("d_arrow/fewer_arrays".into(), cls(de_out(|| Dump::deserialize(serde_arrow::Deserializer::from_arrow(afs, &arrays[..n - 1])?))));
+        }
+        if let (Some(arrays), Ok(a2fs)) = (&arr_a2, &fs.a2) {
+            de_mis.insert("arrow2/fewer_fields".into(), cls(de_out(|| serde_arrow::from_arrow2::<Dump, _>(&a2fs[..n - 1], arrays))));
+            de_mis.insert("arrow2/fewer_arrays".into(), cls(de_out(|| serde_arrow::from_arrow2::<Dump, _>(a2fs, &arrays[..n - 1]))));
+            de_mis.insert("d_arrow2/fewer_fields".into(), cls(de_out(|| Dump::deserialize(serde_arrow::Deserializer::from_arrow2(&a2fs[..n - 1], arrays)?))));
+            de_mis.insert("d_arrow2/fewer_arrays".into(), cls(de_out(|| Dump::deserialize(serde_arrow::Deserializer::from_arrow2(a2fs, &arrays[..n - 1])?))));
+        }
+    }
+
     // ---- field round trips marrow → back end → marrow (hypothesis hFRT)
     let rt_a = match &fs.a {
         Ok(afs) => match conv(|| afs.iter().map(|f| Field::try_from(f.as_ref())).collect::<Result<Vec<Field>, _>>()) {
@@ -438,6 +466,7 @@ pub fn exec(input: &Value) -> Value {
     obj.insert("via".into(), Value::Object(via));
     obj.insert("conv_cols".into(), Value::Object(conv_cols));
     obj.insert("de".into(), Value::Object(de));
+    obj.insert("de_mismatch".into(), Value::Object(de_mis));
     obj.insert("batch".into(), batch.as_ref().map(batch_info).unwrap_or(Value::Null));
     obj.insert("fields_rt".into(), json!({"arrow": rt_a, "arrow2": rt_a2}));
     case
